@@ -111,4 +111,11 @@ theorem Elem.total_of_mem {E : Elem} (h : E ∈ allElems) : E.total = true :=
 theorem Elem.onlyValueErrors_of_mem {E : Elem} (h : E ∈ allElems) : E.onlyValueErrors = true :=
   List.all_eq_true.mp allElems_onlyValueErrors E h
 
+
+theorem Elem.err_valueError_mem {E : Elem} {v : Nat} {e : Err} (h : E.dec v = .error e) (hm : E ∈ allElems) :
+    e = .valueError := Elem.err_valueError (Elem.onlyValueErrors_of_mem hm) h
+
+theorem Elem.defined_of_dec_mem {E : Elem} {v m : Nat} (h : E.dec v = .ok m) (hm : E ∈ allElems) :
+    E.defined m = true := Elem.defined_of_dec (Elem.total_of_mem hm) h
+
 end Dmr
